@@ -140,8 +140,13 @@ def cases(ctx):
         rows = [[rng.choice(pool) if f in ('k', 'j') else rng.choice([None, 'r%d%s' % (r, f), 'same']) for f in hdr] for r in range(n)]
         keyf = [f for f in hdr if f in ('k', 'j')] or [hdr[0]]
         key = keyf[0] if (len(keyf) == 1 or rng.random() < 0.6) else tuple(keyf)
-        if rng.random() < 0.15 and not isinstance(key, tuple):
+        r3 = rng.random()
+        if r3 < 0.15 and not isinstance(key, tuple):
             key = hdr.index(key)
+        elif r3 < 0.25 and not isinstance(key, tuple):
+            key = rng.choice([(key,), [key], (hdr.index(key),)])       # a one-element sequence: the same single field
+        elif r3 < 0.3 and isinstance(key, tuple):
+            key = list(key)
         kw = {}
         if fn in ('lookup', 'lookupone') and rng.random() < 0.5:
             vf = [f for f in hdr if f not in keyf] or [hdr[-1]]
